@@ -3,6 +3,7 @@ package c09
 import (
 	"strings"
 	"testing"
+	"time"
 
 	"pgregory.net/rapid"
 
@@ -59,6 +60,14 @@ var serveSeeds = []string{
 	`<iq id="` + strings.Repeat("i", 70000) + `" type="get"><ping xmlns="urn:xmpp:ping"/></iq>`,
 }
 
+// fuzzWaits shortens the waits for the byte-level targets: the fuzzing engine
+// gives up on an input after 10 s, and a verdict must be reached before that.
+func fuzzWaits() {
+	stepWait = 2 * time.Second
+	shutdownWait = 5 * time.Second
+	helperWait = 3 * time.Second
+}
+
 func FuzzC09Serve(f *testing.F) {
 	for _, s := range serveSeeds {
 		f.Add([]byte(s))
@@ -83,6 +92,7 @@ func FuzzC09Serve(f *testing.F) {
 		if len(data) > 1<<20 {
 			t.Skip()
 		}
+		fuzzWaits()
 		reportLate(t)
 		c := fullApp(string(data))
 		res, inconclusive := runACase(c, func(format string, args ...any) { ev.Failf(t, format, args...) })
@@ -114,6 +124,7 @@ func FuzzC09Reply(f *testing.F) {
 		if len(data) > 1<<20 {
 			t.Skip()
 		}
+		fuzzWaits()
 		reportLate(t)
 		h := &helpers[int(hidx)%len(helpers)]
 		kind := h.kind
